@@ -173,7 +173,14 @@ def _make_family_same_name(decorate):
     return fns
 
 
+def _make_family_mixed(first_spied):
+    """only every other state carries the spy decorator"""
+    plain, spied = _make_family(None), _make_family(hsm.spy_on)
+    return [(spied if (i % 2 == 0) == first_spied else plain)[i] for i in range(NSTATES)]
+
+
 FAMILIES = {"plain": _make_family(None), "spied": _make_family(hsm.spy_on),
+            "mixed_even_spied": _make_family_mixed(True), "mixed_odd_spied": _make_family_mixed(False),
             "plain_same_name": _make_family_same_name(None), "spied_same_name": _make_family_same_name(hsm.spy_on)}
 NAMES = ["s%d" % i for i in range(NSTATES)]
 
